@@ -1,17 +1,75 @@
-(* Props/C04.v -- see Geom/Mesh_proofs.v (in progress); here: the face generators' index facts. *)
+(* Props/C04.v -- built polyhedra: well-formed faces and no boundary, for every profile length, segment count and
+   path length. Axiom-free, generic in the number type (so also true of the float reading).
+   mnet u v faces = (number of faces using the directed edge u->v) - (number using v->u);
+   closed_net faces: that is 0 for every ordered pair, i.e. the oriented surface has no boundary and no edge is used
+   more often one way than the other. `complete poly` says the cap triangulation returned n-2 triangles (C03). *)
 From Coq Require Import ZArith List Lia.
-From SCAD Require Import Base.Num Geom.Dim3.
+From SCAD Require Import Base.Num Base.Vec Geom.Tri Geom.Tri_proofs Geom.Dim2 Geom.Dim3 Geom.Mesh_proofs.
 Import ListNotations.
 
-(* a side quad between two rings has four distinct, in-range vertices (n >= 2) *)
+(* a side quad between two rings has four distinct vertices (n >= 2) *)
 Theorem C04_quad_vertices : forall n ra rb p, (2 <= n)%Z -> (0 <= p < n)%Z -> (ra + n <= rb \/ rb + n <= ra)%Z ->
   NoDup (quad n ra rb p) /\ NoDup (quad_rev n ra rb p).
+Proof. exact quad_nodup. Qed.
+
+(* the strip of quads between two rings of any size: ring a forward, ring b backward, all rungs cancel *)
+Theorem C04_strip : forall u v (k : nat) ra rb, (1 <= k)%nat ->
+  mnet u v (map (quad (Z.of_nat k) ra rb) (nseq k)) = (fnet u v (ring ra k) - fnet u v (ring rb k))%Z /\
+  mnet u v (map (quad_rev (Z.of_nat k) ra rb) (nseq k)) = (fnet u v (ring rb k) - fnet u v (ring ra k))%Z.
+Proof. intros u v k ra rb Hk. split; [apply strip_net|apply strip_rev_net]; exact Hk. Qed.
+
+(* a complete cap contributes exactly its ring, forward or backward *)
+Theorem C04_caps {T} `{Num T} : forall u v (pts : list (pt2 T)) off, (3 <= length pts)%nat ->
+  (complete (enumerate pts) -> mnet u v (triples (triangulate (enumerate pts)) off) = fnet u v (ring off (length pts))) /\
+  (complete (rev (enumerate pts)) -> mnet u v (triples (triangulate (rev (enumerate pts))) off) = (- fnet u v (ring off (length pts)))%Z).
+Proof. intros u v pts off Hn. split; intros Hc; [apply cap_forward|apply cap_backward]; assumption. Qed.
+
+(* linear_extrude, loft, cylinder *)
+Theorem C04_linear_extrude {T} `{Num T} : forall (pts : list (pt2 T)) (h : T) ph, linear_extrude pts h = Some ph ->
+  let n := Z.of_nat (length pts) in
+  (Z.of_nat (length (fst ph)) = 2 * n)%Z /\ Forall (face_ok (2 * n)) (snd ph) /\
+  (complete (rev (enumerate pts)) -> complete (enumerate pts) -> closed_net (snd ph)).
 Proof.
-  intros n ra rb p Hn Hp Hr. unfold quad, quad_rev.
-  assert (Hm : (0 <= (p + 1) mod n < n)%Z) by (apply Z.mod_pos_bound; lia).
-  assert (Hne : ((p + 1) mod n <> p)%Z).
-  { destruct (Z.eq_dec (p + 1) n) as [E | E].
-    - rewrite E, Z.mod_same by lia. lia.
-    - rewrite Z.mod_small by lia. lia. }
-  split; repeat constructor; cbn [In]; intuition lia.
+  intros pts h ph E n. destruct (linear_extrude_faces_ok pts h ph E) as [H1 H2]. split; [exact H1|]. split; [exact H2|].
+  apply (linear_extrude_closed pts h ph E).
+Qed.
+Theorem C04_loft {T} `{Num T} : forall (lower upper : list (pt2 T)) (h : T) ph, loft lower upper h = Some ph ->
+  let n := Z.of_nat (length lower) in
+  (Z.of_nat (length (fst ph)) = 2 * n)%Z /\ Forall (face_ok (2 * n)) (snd ph) /\
+  (complete (rev (enumerate lower)) -> complete (enumerate upper) -> closed_net (snd ph)).
+Proof.
+  intros lower upper h ph E n. destruct (loft_faces_ok lower upper h ph E) as [H1 H2]. split; [exact H1|]. split; [exact H2|].
+  apply (loft_closed lower upper h ph E).
+Qed.
+Theorem C04_cylinder {T} `{Num T} : forall (r h : T) (segments : Z) ph c, cylinder r h segments = Some ph -> circle r segments = Some c ->
+  complete (rev (enumerate c)) -> complete (enumerate c) -> closed_net (snd ph).
+Proof. exact (@cylinder_closed T H). Qed.
+
+(* rotate_extrude for any angle in (0, 360] and any segment count >= 3, with caps (partial) or the closing ring (360) *)
+Theorem C04_rotate_extrude {T} `{Num T} : forall (profile : list (pt2 T)) (degrees : T) (segments : Z) ph,
+  rotate_extrude profile degrees segments = Some ph ->
+  complete (enumerate profile) -> complete (rev (enumerate profile)) -> closed_net (snd ph).
+Proof. exact (@rotate_extrude_closed T H). Qed.
+
+(* sweep along any path, open (start cap from the profile, end cap from the last ring projected along the last
+   segment) or closed (closing ring): every twist, every path length >= 2 *)
+Theorem C04_sweep {T} `{Num T} : forall (profile : list (pt2 T)) (path : list (pt3 T)) (twist : T) (closed : bool) ph,
+  sweep profile path twist closed = Some ph -> (1 <= length profile)%nat ->
+  (closed = false -> complete (rev (enumerate profile)) /\
+                     complete (enumerate (map (project (sweep_end_normal path)) (sweep_last_points profile path twist closed)))) ->
+  closed_net (snd ph).
+Proof. exact (@sweep_closed T H). Qed.
+
+(* not vacuous: a unit-square prism in the rational reading is built, its caps are complete, hence closed *)
+From SCAD Require Import Base.NumQ.
+From Coq Require Import QArith.
+Example C04_square_prism :
+  let sq := [Pt2 0%Q 0%Q; Pt2 0%Q 1%Q; Pt2 1%Q 1%Q; Pt2 1%Q 0%Q] in
+  (exists ph, linear_extrude sq 1%Q = Some ph /\ closed_net (snd ph)) /\ complete (enumerate sq) /\ complete (rev (enumerate sq)).
+Proof.
+  cbv zeta. assert (C1 : complete (enumerate [Pt2 0%Q 0%Q; Pt2 0%Q 1%Q; Pt2 1%Q 1%Q; Pt2 1%Q 0%Q])) by (vm_compute; reflexivity).
+  assert (C2 : complete (rev (enumerate [Pt2 0%Q 0%Q; Pt2 0%Q 1%Q; Pt2 1%Q 1%Q; Pt2 1%Q 0%Q]))) by (vm_compute; reflexivity).
+  split; [|split; assumption].
+  destruct (linear_extrude [Pt2 0%Q 0%Q; Pt2 0%Q 1%Q; Pt2 1%Q 1%Q; Pt2 1%Q 0%Q] 1%Q) as [ph|] eqn:E; [|vm_compute in E; discriminate].
+  exists ph. split; [reflexivity|]. eapply linear_extrude_closed; eassumption.
 Qed.
